@@ -52,6 +52,39 @@ def literal_of(pattern, flags=re.VERBOSE):
     return ''.join(out)
 
 
+def class_namespace(module, clsname, wanted):
+    """final values of the class level names `wanted`: the statements of
+    the class body that mention one of them (definition, item stores,
+    augmented assignments, method calls such as .update()) are evaluated
+    in order"""
+    from .absint import Evaluator, Raised
+    env = {}
+    ev = Evaluator(module, clsname, {}, {}, max_steps=200000)
+    for st in module.classes[clsname].body:
+        if not isinstance(st, (ast.Assign, ast.AugAssign, ast.Expr)):
+            continue
+        if isinstance(st, ast.Expr) and not isinstance(st.value, ast.Call):
+            continue
+        roots = set()
+        tgts = st.targets if isinstance(st, ast.Assign) else (
+            [st.target] if isinstance(st, ast.AugAssign) else [st.value.func])
+        for t in tgts:
+            e = t
+            while isinstance(e, (ast.Attribute, ast.Subscript)):
+                e = e.value
+            if isinstance(e, ast.Name):
+                roots.add(e.id)
+        if not roots & set(wanted):
+            continue
+        try:
+            ev.stmt(st, env)
+        except (AnalysisError, Raised):
+            # the plain definition is still available through the folder
+            for r in roots:
+                env.pop(r, None)
+    return env
+
+
 class LexModel(object):
 
     def __init__(self, index):
@@ -62,6 +95,16 @@ class LexModel(object):
         self.tokens = tuple(need_const(m, 'tokens', 'Lexer', tuple))
         self.keywords = tuple(need_const(m, 'keywords', 'Lexer', tuple))
         self.keywords_dict = need_const(m, 'keywords_dict', 'Lexer', dict)
+        # later statements of the class body may extend the tables
+        # (keywords_dict['x'] = 'X', tokens += (...), .update(...))
+        ns = class_namespace(m, 'Lexer', ('tokens', 'keywords',
+                                          'keywords_dict'))
+        if isinstance(ns.get('tokens'), (tuple, list)):
+            self.tokens = tuple(ns['tokens'])
+        if isinstance(ns.get('keywords'), (tuple, list)):
+            self.keywords = tuple(ns['keywords'])
+        if isinstance(ns.get('keywords_dict'), dict):
+            self.keywords_dict = dict(ns['keywords_dict'])
         states = need_const(m, 'states', 'Lexer', tuple)
         self.states = {'INITIAL': 'inclusive'}
         for name, kind in states:
